@@ -84,7 +84,7 @@ type viol struct {
 var (
 	mu      sync.Mutex
 	active  bool // controlled mode: Yield parks
-	byGoid  = map[uint64]*G{}
+	byGoid  gtab
 	all     []*G
 	current *G // token holder
 	root    *G
@@ -103,7 +103,7 @@ var (
 func Run(seed uint64, controlled bool, main func()) (panicked any) {
 	freeMode.Store(!controlled)
 	lockMu()
-	byGoid = map[uint64]*G{}
+	byGoid.reset()
 	all = nil
 	current = nil
 	viols = nil
@@ -125,7 +125,7 @@ func Run(seed uint64, controlled bool, main func()) (panicked any) {
 		root = &G{Seq: 0, ID: "0", Label: "sched", goid: rtGoid(), begun: true}
 		idle = make(chan struct{}, 1)
 		all = append(all, root)
-		byGoid[root.goid] = root
+		byGoid.put(root.goid, root)
 		active = controlled
 		unlockMu()
 		rtConfigure(true, seed)
@@ -158,7 +158,7 @@ func waitWake(ch chan struct{}) {
 func cur() *G {
 	id := rtGoid()
 	lockMu()
-	g := byGoid[id]
+	g := byGoid.get(id)
 	unlockMu()
 	return g
 }
@@ -171,7 +171,7 @@ func Spawn(site string) *Ticket {
 	id := rtGoid()
 	lockMu()
 	defer unlockMu()
-	p := byGoid[id]
+	p := byGoid.get(id)
 	if p == nil {
 		// unmanaged parent (free mode after teardown, library goroutine)
 		return nil
@@ -191,7 +191,7 @@ func Begin(tk *Ticket) {
 	g := tk.g
 	lockMu()
 	g.goid = rtGoid()
-	byGoid[g.goid] = g
+	byGoid.put(g.goid, g)
 	g.begun = true
 	g.Site = "begin"
 	if !active {
@@ -210,10 +210,10 @@ func End() {
 	}
 	id := rtGoid()
 	lockMu()
-	if g := byGoid[id]; g != nil {
+	if g := byGoid.get(id); g != nil {
 		g.done = true
 		g.parked = false
-		delete(byGoid, id)
+		byGoid.del(id)
 		if current == g {
 			current = nil
 		}
@@ -255,7 +255,7 @@ func Yield(site string) {
 	}
 	id := rtGoid()
 	lockMu()
-	g := byGoid[id]
+	g := byGoid.get(id)
 	if g == nil || g == root {
 		unlockMu()
 		return
@@ -277,7 +277,7 @@ func Woke(site string) {
 	}
 	id := rtGoid()
 	lockMu()
-	g := byGoid[id]
+	g := byGoid.get(id)
 	if g == nil || g == root || !active {
 		unlockMu()
 		return
